@@ -1,17 +1,36 @@
 (* C22: buffered I/O preserves the byte stream and counts it exactly.  Property theorems only.
    Model: coq/model/Bufio.v (bfe_bufio/bufio.go after fix commit fa820bf). *)
 From Coq Require Import List ZArith Bool.
-From Bfe Require Import lib.Val lib.Bytes model.Bufio proofs.BufioProofs proofs.BufioStreamProofs run.RunC22.
+From Bfe Require Import lib.Val lib.Bytes model.Bufio proofs.BufioProofs proofs.BufioStreamProofs proofs.BufioCentralProofs run.RunC22.
 Import ListNotations.
 Open Scope Z_scope.
 
+(* CENTRAL THEOREM (partial: guard wf_C22).  wf_C22 is the executable well-formedness of a harness input: a reader
+   script (tag 1, or 3 = the source is also an io.WriterTo: source chunks of bytes >= 0; operations Read n>=0 /
+   ReadByte / UnreadByte / ReadSlice / ReadLine / Peek / ReadBytes / WriteTo / ReadRune / Reset) or a writer script (tag 2, or 4 = the
+   sink is also an io.ReaderFrom: Write / WriteByte / WriteString / Flush / ReadFrom / WriteRune / Reset).  On every such
+   input the predicate that the harness evaluates on the implementation's observations (stream slices at the
+   running position, TotalRead = pulled - Buffered after every operation, delimiter shape of ReadSlice/ReadBytes
+   lines, ReadLine terminators, Peek lengths, ReadRune = UTF-8 decoding of the bytes at the position; accepted-byte accounting, TotalWrite, monotone sink, Flush) holds of
+   the model's observations.  The only generated operation outside the guard (correspondence + prop only) is
+   UnreadRune (op 11). *)
+Theorem C22_prop_of_model_partial : forall i, wf_C22 i = true -> kf_C22 i = 0 -> prop_C22 i (run_C22 i) = true.
+Proof. exact prop_C22_of_model. Qed.
+Print Assumptions C22_prop_of_model_partial.
+(* corpus cases readslice-refill and readfrom-early-return are well-formed *)
+Example C22_wf_corpus :
+  wf_C22 (VL [VZ 1; VZ 16; VL [VL [VB [97;98]; VZ 0]; VL [VB [99;100;101;10]; VZ 0]]; VL [VL [VZ 2]; VL [VZ 4; VZ 10]]]) = true /\
+  wf_C22 (VL [VZ 2; VZ 4; VL [VL [VZ 0; VZ 8]]; VL [VL [VZ 6; VL [VL [VB [97;98;99;100;101;102;103;104]; VZ 0]]]]]) = true.
+Proof. exact wf_C22_corpus. Qed.
+
 (* Counter exactness of the Reader.  For every buffer size, every scripted source (any chunking, errors anywhere)
-   and every history of Read / ReadByte / UnreadByte / ReadSlice / ReadLine / Peek / ReadBytes / WriteTo operations,
+   and every history of Read / ReadByte / UnreadByte / ReadSlice / ReadLine / Peek / ReadBytes / WriteTo / ReadRune /
+   Reset operations (both kinds of source),
    after EVERY operation TotalRead equals the number of bytes obtained from the underlying reader minus the bytes
    still buffered, i.e. exactly the number of bytes consumed so far.  (Each observation is
    [[results] TotalRead pulled Buffered].) *)
 Theorem C22_totalread_exact : forall wt size src ops obs,
-  forallb rune_free ops = true ->
+  forallb no_unrune ops = true ->      (* every operation except UnreadRune *)
   reader_run wt ops (new_reader size src, -1) = Some obs ->
   Forall (fun o => exists ret t p b, o = VL [VL ret; VZ t; VZ p; VZ b] /\ t = p - b /\ 0 <= b) obs.
 Proof. exact totalread_exact. Qed.
@@ -41,7 +60,7 @@ Print Assumptions C22_totalwrite_exact.
    the read index are the bytes consumed last. *)
 Theorem C22_reader_stream : forall size src ops obs,
   Forall (fun b => 0 <= b) (script_stream src) ->
-  forallb rune_free ops = true ->
+  forallb plain_rop ops = true ->      (* no ReadRune / UnreadRune / Reset *)
   reader_run false ops (new_reader size src, -1) = Some obs ->
   trace_ok (script_stream src) 0 ops obs.
 Proof. exact reader_stream. Qed.
@@ -53,7 +72,7 @@ Example C22_reader_stream_example :
   let src := [([97;98;99;10], 0); ([100;13], 0); ([10;101], 1)] in
   let ops := [VL [VZ 2]; VL [VZ 4; VZ 10]; VL [VZ 3]; VL [VZ 2]; VL [VZ 6; VZ 3]; VL [VZ 5]; VL [VZ 1; VZ 40]; VL [VZ 3]; VL [VZ 8; VZ 10]; VL [VZ 9]] in
   Forall (fun b => 0 <= b) (script_stream src) /\
-  forallb rune_free ops = true /\ exists obs, reader_run false ops (new_reader 16 src, -1) = Some obs.
+  forallb plain_rop ops = true /\ exists obs, reader_run false ops (new_reader 16 src, -1) = Some obs.
 Proof. exact reader_stream_example. Qed.
 
 (* Stream preservation of the Writer.  For every buffer size, every sink script (short writes, errors) and every
@@ -64,6 +83,7 @@ Proof. exact reader_stream_example. Qed.
    nothing buffered, and at the end the underlying writer has received exactly a prefix of A - the rest of A is
    what is still buffered.  Nothing is lost, duplicated or reordered on the way to the sink. *)
 Theorem C22_writer_stream : forall size sink ops obs,
+  forallb (fun op => negb (is_wreset op)) ops = true ->      (* Reset starts a new history *)
   writer_run false ops (new_writer size sink) = Some obs ->
   wtrace_ok [] ops obs.
 Proof. exact writer_stream. Qed.
